@@ -2,12 +2,15 @@
 import warnings
 import numpy as np
 import kernels
+import gridtie
 from proto import run_driver
 
 KERNEL_FILES = ["field/summator.pyx"]
 ASSUMPTIONS = ["numpy's RandomState is a deterministic function of its seed and call sequence",
                "model values are abstracted to identifiers (as CovModel.__eq__ sees them); the isclose band of that comparison is finding F4",
-               "distinct model identifiers are realised by parameter sets that give visibly different fields"]
+               "distinct model identifiers are realised by parameter sets that give visibly different fields (for states that differ only in "
+               "anisotropy / rotation: visibly different isometrized positions, and — Fourier, anisotropy ratios — mode grids)",
+               "a freshly constructed SRF (new model object, same parameter values, same integer seed) is the reference for 'what a fresh generator gives'"]
 
 GENS = ["RandMeth", "IncomprRandMeth", "Fourier"]
 MODELS = [dict(var=1.0, len_scale=2.0), dict(var=2.0, len_scale=2.0), dict(var=1.0, len_scale=3.5), dict(var=0.5, len_scale=1.25)]
@@ -26,6 +29,101 @@ FAMILIES = {
 }
 
 
+NUGGETS = [0.0, 0.3, 0.7]           # nugget levels of the bookkeeping model (0 = no nugget)
+
+
+def nug_level(x):
+    return int(x)                    # True/False or 0..2
+
+
+def vec_dim(gen, dim):
+    return dim if gen == "IncomprRandMeth" else 1
+
+
+def make_psets(rng, gen, dim, n):
+    """Position sets of one history.  Set 0 is the ordinary small-coordinate cloud (also used by the direct generator calls).
+    The others: same shape as set 0 resp. as the structured set, located at a magnitude 1e-3 … 1e7 and differing from each other
+    by a shift of relative size 1e-12 … 1e-2 (a few metres at UTM coordinates, tiny shifts near the origin), as unstructured and
+    as structured meshes; an equal-valued copy of a set (new array / list object) carries the same identifier.
+    Each entry: dict(id, mesh, pos, npts)."""
+    p0 = rng.uniform(0, 10, size=(dim, n))
+    sets = [dict(id=0, mesh="unstructured", pos=p0, npts=n)]
+    mag = 10.0 ** rng.uniform(-3, 7)
+    centre = mag * rng.uniform(0.3, 1.0, size=dim) * rng.choice([-1.0, 1.0], size=dim)
+    spread = mag * 10.0 ** rng.uniform(-5, 0)
+    pu = centre[:, None] + rng.uniform(0, spread, size=(dim, n))
+    ks = [int(rng.randint(2, 4)) for _ in range(dim)]
+    if dim == 1 and rng.rand() < 0.5:
+        ks = [n]                        # same number of values in both mesh types
+    ax = [np.sort(centre[d] + rng.uniform(0, spread, size=ks[d])) for d in range(dim)]
+    nid = 1
+    for base, mesh in ((pu, "unstructured"), (ax, "structured")):
+        for v in range(int(rng.randint(1, 4))):
+            rel = 0.0 if v == 0 else 10.0 ** rng.uniform(-12, -2)
+            shift = rel * mag * rng.choice([-1.0, 1.0], size=dim) * (rng.rand(dim) < 0.7)
+            if v and not shift.any():
+                shift[int(rng.randint(0, dim))] = rel * mag
+            if mesh == "unstructured":
+                pos = base + shift[:, None]
+                if v and np.array_equal(pos, base):
+                    continue
+                npts = n
+            else:
+                pos = tuple(a + shift[d] for d, a in enumerate(base))
+                if v and all(np.array_equal(a, b) for a, b in zip(pos, base)):
+                    continue
+                npts = int(np.prod(ks))
+            sets.append(dict(id=nid, mesh=mesh, pos=pos, npts=npts, rel=rel, mag=mag))
+            nid += 1
+    if dim == 1 and ks == [n] and rng.rand() < 0.7:    # the SAME values requested with the other mesh type
+        sets.append(dict(id=nid, mesh="structured", pos=(pu[0].copy(),), npts=n, rel=0.0, mag=mag))
+        nid += 1
+    # equal-valued copies (same identifier, different objects / container types)
+    for e in list(sets[:3]):
+        if rng.rand() < 0.5:
+            c = dict(e)
+            c["pos"] = [np.array(a, copy=True).tolist() for a in e["pos"]] if rng.rand() < 0.5 else \
+                (np.array(e["pos"], copy=True) if e["mesh"] == "unstructured" else tuple(np.array(a, copy=True) for a in e["pos"]))
+            sets.append(c)
+    return sets
+
+
+def pos_arrays(e, dim):
+    """the exact arrays `Field.pos` must hold for position set e"""
+    if e["mesh"] == "unstructured":
+        return np.asarray(e["pos"], dtype=np.double).reshape(dim, -1)
+    return tuple(np.asarray(a, dtype=np.double).reshape(-1) for a in e["pos"])
+
+
+def stored_pos_ok(srf, e, dim):
+    want = pos_arrays(e, dim)
+    if srf.mesh_type != e["mesh"]:
+        return False
+    got = srf.pos
+    if e["mesh"] == "unstructured":
+        return bool(np.shape(got) == want.shape and np.array_equal(np.asarray(got), want))
+    return bool(len(got) == len(want) and all(np.array_equal(np.asarray(a), b) for a, b in zip(got, want)))
+
+
+def _first_with(states, mid, drop):
+    key = lambda st: sorted((k, repr(v)) for k, v in st.items() if k not in drop)
+    full = [dict(dict(anis=1.0, angles=0.0), **st) for st in states]
+    return [key(st) for st in full].index(key(full[mid]))
+
+
+def generator_class(gen, fam, mid):
+    """states of a family that give the same GENERATOR (for the same seed and mode number): the randomization methods do not
+    see anisotropy and rotation (they act on the positions), the Fourier mode grid sees the anisotropy ratios"""
+    return _first_with(FAMILIES[fam][1], mid, ("angles",) if gen == "Fourier" else ("anis", "angles"))
+
+
+def geometry_class(fam, mid):
+    """states of a family with the same isometrization"""
+    states = [dict(dict(anis=1.0, angles=0.0), **st) for st in FAMILIES[fam][1]]
+    key = lambda st: (repr(st["anis"]), repr(st["angles"]))
+    return [key(st) for st in states].index(key(states[mid]))
+
+
 def seed_object(rng, value):
     """equal values, differing identities"""
     if value is None:
@@ -42,7 +140,7 @@ def make_srf(gen, mid, nug, seed, mode_no, dim, fam="gau"):
     import gstools as gs
     cls, states = FAMILIES[fam]
     kw = dict(states[mid])
-    model = getattr(gs, cls)(dim=dim, nugget=0.3 if nug else 0.0, **kw)
+    model = getattr(gs, cls)(dim=dim, nugget=NUGGETS[nug_level(nug)], **kw)
     if gen == "RandMeth":
         return gs.SRF(model, seed=seed, mode_no=mode_no)
     if gen == "IncomprRandMeth":
@@ -50,20 +148,34 @@ def make_srf(gen, mid, nug, seed, mode_no, dim, fam="gau"):
     return gs.SRF(model, generator="Fourier", seed=seed, mode_no=[mode_no] * dim, period=[16.0] * dim)
 
 
-def gen_history(rng, gen, length):
+def gen_history(rng, gen, length, npos=1):
     ops = []
     for _ in range(length):
         r = rng.rand()
         if r < 0.45:
-            s = rng.choice(["keep", "none", "int", "int"])
-            o = {"k": "srf_call", "n": 0}
+            s = rng.choice(["keep", "keep", "none", "int", "int", "int"])
+            o = {"k": "srf_call", "n": 0, "pset": int(rng.randint(0, npos)) if rng.rand() < 0.75 else 0}
             if s == "keep":
                 o["seed"] = "keep"
             elif s == "int":
-                o["seed"] = int(rng.choice([7, 7, 1000000007, 12]))
+                o["seed"] = int(rng.choice([7, 7, 7, 1000000007, 12]))
             ops.append(o)
         elif r < 0.65:
-            ops.append({"k": "model", "id": int(rng.randint(0, len(MODELS))), "nug": bool(rng.rand() < 0.4)})
+            q = rng.rand()
+            if q < 0.35:      # only the nugget changes (on / off / another positive value)
+                ops.append({"k": "model", "id": "same", "nug": int(rng.randint(0, 3))})
+            elif q < 0.6:     # everything but the nugget changes, the nugget stays
+                ops.append({"k": "model", "id": int(rng.randint(0, len(MODELS))), "nug": "same"})
+            else:
+                ops.append({"k": "model", "id": int(rng.randint(0, len(MODELS))), "nug": int(rng.choice([0, 0, 1, 1, 2]))})
+            if rng.rand() < 0.6:  # … and the next field-level call sees it (mostly without a new seed value)
+                o = {"k": "srf_call", "n": 0, "pset": int(rng.randint(0, npos)) if rng.rand() < 0.5 else 0}
+                s = rng.choice(["keep", "keep", "keep", "int", "none"])
+                if s == "keep":
+                    o["seed"] = "keep"
+                elif s == "int":
+                    o["seed"] = 7
+                ops.append(o)
         elif r < 0.75:
             o = {"k": "gen_seed"}
             if rng.rand() < 0.8:
@@ -84,25 +196,47 @@ def gen_history(rng, gen, length):
     return ops
 
 
-def run_real(rng, gen, dim, ops, m0, nug0, seed0, mode_no, pos, fam="gau"):
+def resolve_history(ops, m0, nug0, psets, vd, n0):
+    """fill in what depends on the running state: 'same' model id / nugget level, number of variates of each call"""
+    mid, nug = m0, nug0
+    for o in ops:
+        if o["k"] == "model":
+            if o["id"] == "same":
+                o["id"] = mid
+            if o["nug"] == "same":
+                o["nug"] = nug
+            mid, nug = o["id"], o["nug"]
+        elif o["k"] == "srf_call":
+            o["n"] = psets[o["pset"]]["npts"] * vd
+            o["pos"] = psets[o["pset"]]["id"]
+        elif o["k"] == "gen_call":
+            o["n"] = n0 * vd
+    return ops
+
+
+def run_real(rng, gen, dim, ops, m0, nug0, seed0, mode_no, psets, fam="gau"):
     srf = make_srf(gen, m0, nug0, seed_object(rng, seed0), mode_no, dim, fam)
-    outs, fresh = [], []
+    outs, fresh, stored = [], [], []
     cur = dict(mid=m0, nug=nug0)
-    iso = srf.model.isometrize(pos)
+    iso = srf.model.isometrize(psets[0]["pos"])
     for o in ops:
         k = o["k"]
         if k == "srf_call":
-            if o.get("seed") == "keep":
-                f = srf(pos)
-            else:
-                f = srf(pos, seed=seed_object(rng, o.get("seed")))
+            e = psets[o["pset"]]
+            kw = dict(mesh_type=e["mesh"])
+            if e["mesh"] == "unstructured" and rng.rand() < 0.5:
+                kw = {}                                        # the default mesh type
+            if o.get("seed") != "keep":
+                kw["seed"] = seed_object(rng, o.get("seed"))
+            f = srf(e["pos"], **kw)
             outs.append(np.array(f, copy=True))
             sd = srf.generator.seed
             mn = srf.generator.mode_no if gen != "Fourier" else int(srf.generator.mode_no[0])
             fr = None
             if sd is not None and not cur["nug"]:
-                fr = make_srf(gen, cur["mid"], False, int(sd), mn, dim, fam)(pos)
+                fr = make_srf(gen, cur["mid"], 0, int(sd), mn, dim, fam)(e["pos"], mesh_type=e["mesh"])
             fresh.append(fr)
+            stored.append((stored_pos_ok(srf, e, dim), srf.mesh_type))
         elif k == "model":
             cur = dict(mid=o["id"], nug=o["nug"])
             st = dict(FAMILIES[fam][1][o["id"]])
@@ -113,7 +247,7 @@ def run_real(rng, gen, dim, ops, m0, nug0, seed0, mode_no, pos, fam="gau"):
                 st["len_low"] = FAMILIES[fam][1][o["id"]].get("len_low", 0.0)
             for name in sorted(st, key=lambda a: (a == "var", a)):    # var last (TPL models: var follows the intensity)
                 setattr(srf.model, name, st[name])
-            srf.model.nugget = 0.3 if o["nug"] else 0.0
+            srf.model.nugget = NUGGETS[nug_level(o["nug"])]
         elif k == "gen_seed":
             srf.generator.seed = seed_object(rng, o.get("s"))
         elif k == "gen_mode_no":
@@ -127,30 +261,154 @@ def run_real(rng, gen, dim, ops, m0, nug0, seed0, mode_no, pos, fam="gau"):
             f = srf.generator(iso, add_nugget=o["nugget"])
             outs.append(np.array(f, copy=True))
             fresh.append(None)
-    return outs, fresh
+            stored.append(None)
+    return outs, fresh, stored, iso
+
+
+def expected_output(cache, gen, dim, fam, rec, o, psets, iso):
+    """What the bookkeeping model predicts, built on a FRESH object: a new SRF with the predicted model state, seed and mode
+    number, on which the predicted number of noise draws since the last restart of the stream is replayed (calls of other
+    shapes at other positions), evaluated like the call `o`.  None for random (`None`) seeds."""
+    if rec["seed"] is None:
+        return None
+    key = (rec["model"], rec["nug"], rec["seed"], rec["mode_no"], rec["burn"] if rec["nug"] else 0, o["k"], o.get("pset"), o.get("nugget"))
+    if key not in cache:
+        f = make_srf(gen, rec["model"], rec["nug"], int(rec["seed"]), rec["mode_no"], dim, fam)
+        if rec["nug"]:
+            for j in range(rec["burn"]):
+                if j % 2:
+                    f.generator(np.full((dim, 1 + j % 3), 0.25), add_nugget=True)
+                else:
+                    f(np.full((dim, 1 + j % 3), 0.5))
+        if o["k"] == "srf_call":
+            e = psets[o["pset"]]
+            cache[key] = np.array(f(e["pos"], mesh_type=e["mesh"]), copy=True)
+        else:
+            cache[key] = np.array(f.generator(iso, add_nugget=o["nugget"]), copy=True)
+    return cache[key]
+
+
+def compare_history(ctx, case, r, dist, dis, distinct):
+    """run one history on the real objects and compare it with the driver's answer r"""
+    gen, dim, ops, m0, nug0, seed0, mn, psets, fam = case
+    if isinstance(r, dict) and "error" in r:
+        dis.append({"what": "driver error " + r["error"]})
+        return
+    irng = np.random.RandomState(ctx.seed + 5)
+    outs, fresh, stored, iso = run_real(irng, gen, dim, ops, m0, nug0, seed0, mn, psets, fam)
+    dist["family:" + fam] = dist.get("family:" + fam, 0) + 1
+    dist["pos_sets"] += len(psets)
+    if len(outs) != len(r):
+        dis.append({"what": "number of generating calls differs", "ops": ops})
+        return
+    bad = None
+    callops = [o for o in ops if o["k"] in ("srf_call", "gen_call")]
+    byid = {}
+    for e in psets:
+        byid.setdefault(e["id"], e)
+    # position class of an output: the position set it was asked for; the direct generator calls use the isometrized
+    # set 0 of the initial model.  A model state acts on an output in two ways: through the generator (modes, variance,
+    # Fourier mode grid) and through the isometrized positions (anisotropy, rotation).  The token is therefore
+    # (generator-level class of the state, geometry class of the state whose isometrization was applied): for the families
+    # whose states differ in var / len_scale / shape arguments this is the state identifier itself, for the family that
+    # differs ONLY in anisotropy / rotation the randomization generators are the same for all states.
+    def pclass(o):
+        return o["pos"] if o["k"] == "srf_call" else 0
+
+    def token(o, x):
+        f = list(x["out"]["field"])
+        geom = geometry_class(fam, f[0] if o["k"] == "srf_call" else m0)
+        f[0] = generator_class(gen, fam, f[0])
+        return (tuple(f), None if x["out"]["noise"] is None else tuple(x["out"]["noise"]) + (x["out"]["nug"],), geom)
+    toks = [(token(o, x), pclass(o)) for o, x in zip(callops, r)]
+    # non-finite outputs (a numerically negative spectrum under the square root of the Fourier spectrum factor) carry
+    # no information about determinism or locality: counted, not compared
+    finite = [bool(np.all(np.isfinite(a))) for a in outs]
+    cache = {}
+    for i in range(len(outs)):
+        o = callops[i]
+        dist["calls"] += 1
+        if not finite[i]:
+            dist["nonfinite_outputs"] += 1
+        if o["k"] == "srf_call":
+            e = psets[o["pset"]]
+            dist["calls_at_shifted_pos"] += int(bool(e.get("rel")))
+            dist["calls_structured"] += int(e["mesh"] == "structured")
+            # the positions: the model says which set the output belongs to and which set is stored afterwards
+            dist["stored_pos_checked"] += 1
+            sid = r[i]["stored_pos"]
+            if r[i]["out"]["pos"] != o["pos"] or sid not in byid or not stored_pos_ok_result(stored[i], byid[sid], e):
+                bad = {"what": f"{gen}: the positions stored on the field object after a call are not the given ones "
+                               "(bookkeeping model: the given set is stored)", "call": i, "pset": o["pset"],
+                       "mesh_type_now": stored[i][1], "rel_shift": e.get("rel"), "magnitude": e.get("mag")}
+                break
+        # against a freshly built object (nugget-free, integer seed): must be identical
+        if fresh[i] is not None and finite[i]:
+            dist["fresh_compared"] += 1
+            model_says = tuple(r[i]["out"]["field"]) == tuple(r[i]["fresh"])
+            real_says = bool(np.array_equal(outs[i], fresh[i]))
+            if model_says != real_says:
+                bad = {"what": f"{gen}: field vs freshly built object disagrees with the bookkeeping model", "call": i,
+                       "real_equal": real_says, "model_equal": model_says}
+                break
+        # the model's complete prediction (modes, noise stream position, positions) realised on a fresh object
+        rec = r[i]["recipe"]
+        exp = expected_output(cache, gen, dim, fam, rec, o, psets, iso) if finite[i] else None
+        if exp is not None:
+            dist["replay_compared"] += 1
+            dist["replay_with_noise"] += int(r[i]["out"]["noise"] is not None)
+            dist["replay_with_burn"] += int(r[i]["out"]["noise"] is not None and rec["burn"] > 0)
+            if not (exp.shape == outs[i].shape and np.array_equal(outs[i], exp)):
+                bad = {"what": f"{gen}: output differs from the one predicted by the bookkeeping model — a freshly built object "
+                               "(predicted model state, seed, mode number) after the predicted number of noise draws since the "
+                               "last restart of the stream, evaluated at the requested positions", "call": i,
+                       "recipe": rec, "with_noise": r[i]["out"]["noise"] is not None, "op": o,
+                       "max_abs_diff": float(np.max(np.abs(outs[i] - exp))) if exp.shape == outs[i].shape else "shape",
+                       "rel_shift": psets[o["pset"]].get("rel") if o["k"] == "srf_call" else None}
+                break
+        for jx in range(i):
+            if toks[i][1] != toks[jx][1] or not (finite[i] and finite[jx]):
+                continue          # different position sets: each is compared with its own fresh evaluation above
+            dist["pairs"] += 1
+            same_tok = toks[i] == toks[jx]
+            same_real = bool(outs[i].shape == outs[jx].shape and np.array_equal(outs[i], outs[jx]))
+            if same_tok != same_real:
+                bad = {"what": f"{gen}: equality pattern of outputs differs from the bookkeeping model", "calls": [jx, i],
+                       "real_equal": same_real, "tokens": [toks[jx], toks[i]]}
+                break
+        if bad:
+            break
+    if bad:
+        bad.update(ops=ops, init=dict(model=m0, nug=nug0, seed=seed0, mode_no=mn), gen=gen, dim=dim, family=fam,
+                   psets=[dict(id=e["id"], mesh=e["mesh"], npts=e["npts"], pos=[np.asarray(a).tolist() for a in e["pos"]]) for e in psets])
+        dis.append(bad)
+    dist["model_changes_nugget_only"] += sum(1 for a, b in zip([dict(id=m0, nug=nug0)] + [o for o in ops if o["k"] == "model"],
+                                                              [o for o in ops if o["k"] == "model"])
+                                             if a["id"] == b["id"] and a["nug"] != b["nug"])
+    distinct.add((gen, fam, tuple(o["k"] for o in ops)))
 
 
 def correspondence(ctx):
     res_k = kernels.kernel_correspondence(ctx, ["summate", "summate_fourier", "summate_incompr"], ctx.scale(10, 120), big=not ctx.quick)
     rng = np.random.RandomState(ctx.seed + 1111)
-    H = ctx.scale(45, 400)
+    H = ctx.scale(120, 600)
     cases, opsl = [], []
     for h in range(H):
         gen = GENS[h % 3]
         dim = int(rng.randint(2, 4)) if gen == "IncomprRandMeth" else int(rng.randint(1, 4))
         n = int(rng.randint(2, 6))
-        pos = rng.uniform(0, 10, size=(dim, n))
-        ops = gen_history(rng, gen, int(rng.randint(3, ctx.scale(12, 40))))
-        size = n * (dim if gen == "IncomprRandMeth" else 1)
-        for o in ops:
-            if "n" in o and o["k"] in ("srf_call", "gen_call"):
-                o["n"] = size
-        m0, nug0 = int(rng.randint(0, len(MODELS))), bool(rng.rand() < 0.4)
+        psets = make_psets(rng, gen, dim, n)
+        ops = gen_history(rng, gen, int(rng.randint(3, ctx.scale(12, 40))), len(psets))
+        m0, nug0 = int(rng.randint(0, len(MODELS))), int(rng.choice([0, 0, 1, 1, 2]))
+        resolve_history(ops, m0, nug0, psets, vec_dim(gen, dim), n)
         seed0 = None if rng.rand() < 0.15 else int(rng.choice([7, 1000000007, 12]))
         mn = int(rng.choice([16, 24]))
-        fams = ["gau", "stable", "matern", "tpl"] + (["aniso"] if (dim > 1 and gen != "IncomprRandMeth") else [])
+        if gen == "Fourier":           # modes per axis: keep the grid (mn**dim modes, numerical spectra) affordable
+            mn = {1: mn, 2: mn // 2, 3: mn // 4}[dim]
+        # the TPL family is ~10x as expensive to construct as the others: drawn less often
+        fams = ["gau", "gau", "gau", "stable", "stable", "matern", "matern", "tpl"] + (["aniso"] * 3 if (dim > 1 and gen != "IncomprRandMeth") else [])
         fam = str(fams[int(rng.randint(0, len(fams)))]) if h >= 3 else "gau"
-        cases.append((gen, dim, ops, m0, nug0, seed0, mn, pos, fam))
+        cases.append((gen, dim, ops, m0, nug0, seed0, mn, psets, fam))
         d = {"op": "gen_history", "model": m0, "nug": nug0, "mode_no": mn, "ops": ops}
         if seed0 is not None:
             d["seed0"] = seed0
@@ -158,54 +416,35 @@ def correspondence(ctx):
     res = run_driver(opsl)
     dis, distinct = list(res_k["disagreements"]), set()
     dist = dict(res_k["distribution"])
-    dist.update(calls=0, fresh_compared=0, pairs=0)
+    dist.update(calls=0, fresh_compared=0, pairs=0, replay_compared=0, replay_with_noise=0, replay_with_burn=0,
+                stored_pos_checked=0, pos_sets=0, nonfinite_outputs=0, calls_at_shifted_pos=0, calls_structured=0, model_changes_nugget_only=0)
     with warnings.catch_warnings():
         warnings.simplefilter("ignore")
-        for (gen, dim, ops, m0, nug0, seed0, mn, pos, fam), r in zip(cases, res):
-            if isinstance(r, dict) and "error" in r:
-                dis.append({"what": "driver error " + r["error"]})
-                continue
-            irng = np.random.RandomState(ctx.seed + 5)
-            outs, fresh = run_real(irng, gen, dim, ops, m0, nug0, seed0, mn, pos, fam)
-            dist["family:" + fam] = dist.get("family:" + fam, 0) + 1
-            if len(outs) != len(r):
-                dis.append({"what": "number of generating calls differs", "ops": ops})
-                continue
-            bad = None
-            toks = [(tuple(x["out"]["field"]), None if x["out"]["noise"] is None else tuple(x["out"]["noise"])) for x in r]
-            for i in range(len(outs)):
-                dist["calls"] += 1
-                # against a freshly built object (nugget-free, integer seed): must be identical
-                if fresh[i] is not None:
-                    dist["fresh_compared"] += 1
-                    model_says = tuple(r[i]["out"]["field"]) == tuple(r[i]["fresh"])
-                    real_says = bool(np.array_equal(outs[i], fresh[i]))
-                    if model_says != real_says:
-                        bad = {"what": f"{gen}: field vs freshly built object disagrees with the bookkeeping model", "call": i,
-                               "real_equal": real_says, "model_equal": model_says}
-                        break
-                for jx in range(i):
-                    dist["pairs"] += 1
-                    same_tok = toks[i] == toks[jx]
-                    same_real = bool(np.array_equal(outs[i], outs[jx]))
-                    if same_tok != same_real:
-                        bad = {"what": f"{gen}: equality pattern of outputs differs from the bookkeeping model", "calls": [jx, i],
-                               "real_equal": same_real, "tokens": [toks[jx], toks[i]]}
-                        break
-                if bad:
-                    break
-            if bad:
-                bad.update(ops=ops, init=dict(model=m0, nug=nug0, seed=seed0, mode_no=mn), gen=gen, dim=dim, family=fam)
-                dis.append(bad)
-            distinct.add((gen, fam, tuple(o["k"] for o in ops)))
-    return {"evaluations": res_k["evaluations"] + dist["calls"], "distinct_nontrivial": res_k["distinct_nontrivial"] + len(distinct),
-            "rule": res_k["rule"] + " || histories on real SRF objects (RandMeth, IncomprRandMeth, Fourier): field-level calls with seeds of "
-                    "differing object identity (int, fresh big int, np.int64, None, keep), in-place model changes (incl. nugget on/off; model families "
-                    "Gaussian, Stable, Matern, TPLStable, anisotropic+rotated Exponential whose states differ only in an optional shape argument, "
+        for case, r in zip(cases, res):
+            compare_history(ctx, case, r, dist, dis, distinct)
+    # generate_grid / C-order index decoding vs Model/Grid.lean (Grid.structured_eq_unstructured, C11Grid), exact
+    grid = gridtie.grid_correspondence(ctx)
+    dis = grid["disagreements"][:3] + dis
+    dist["grid_evaluations"] = grid["evaluations"]
+    return {"evaluations": res_k["evaluations"] + dist["calls"] + grid["evaluations"],
+            "distinct_nontrivial": res_k["distinct_nontrivial"] + len(distinct) + grid["distinct"],
+            "rule": res_k["rule"] + " || " + grid["rule"] + " || histories on real SRF objects (RandMeth, IncomprRandMeth, Fourier): field-level calls with seeds of "
+                    "differing object identity (int, fresh big int, np.int64, None, keep) at position sets of one shape that differ by relative "
+                    "shifts 1e-12…1e-2 at magnitudes 1e-3…1e7 (unstructured and structured, equal-valued copies, mesh-type switches), "
+                    "in-place model changes (nugget on/off/other value alone, everything but the nugget, both; model families "
+                    "Gaussian, Stable, Matern, TPLStable, anisotropic+rotated Exponential whose states differ only in var, an optional shape argument, "
                     "rescale, len_low, anisotropy or angles), "
-                    "generator seed / mode_no setters, reset_seed, direct generator calls; compared: equality pattern of all outputs "
-                    "(nugget noise included) against the model's tokens, and each nugget-free output against a freshly built object",
+                    "generator seed / mode_no setters, reset_seed, direct generator calls; compared: (a) every output with an integer seed, nugget "
+                    "noise included, bit for bit against a freshly built object realising the model's prediction (model state, seed, mode number, "
+                    "number of noise draws since the last restart of the stream, position set); (b) the stored positions / mesh type against the "
+                    "model's stored set; (c) equality pattern of all outputs at one position set against the model's tokens; (d) each nugget-free "
+                    "output against a fresh object built from the harness's own tracking",
             "samples": [c[2] for c in cases[:2]] + res_k["samples"][:2], "disagreements": dis[:6], "distribution": dist}
+
+
+def stored_pos_ok_result(st, model_entry, asked_entry):
+    """st = (real stored pos equals the ASKED set exactly, real mesh type); the model's stored set must be the asked one"""
+    return bool(st[0]) and model_entry["id"] == asked_entry["id"] and st[1] == asked_entry["mesh"]
 
 
 def search(ctx, deep=False):
@@ -274,8 +513,163 @@ def search(ctx, deep=False):
             if not all(np.array_equal(outs[0][0], o[0]) and np.array_equal(outs[0][1], o[1]) for o in outs[1:]):
                 viol.append({"key": f"seed-identity:{gen}", "what": "equal seed values of different object identity give different results (nugget noise history)",
                              "case": desc})
-    return {"evaluations": ev, "violations": viol[:8],
-            "summary": "real SRF (three generators, anisotropic/rotated models): permutation, split, history, storage name, structured vs expanded grid, seed object identity with nugget noise"}
+        ev += search_pos_history(gs, np.random.RandomState(ctx.seed + 211), ctx.scale(90, 600) * (3 if deep else 1), viol)
+        ev += search_noise_history(gs, np.random.RandomState(ctx.seed + 311), ctx.scale(90, 600) * (3 if deep else 1), viol)
+    seen, out = set(), []
+    for v in viol:                      # one representative per key first, so that no class is crowded out
+        if v["key"] not in seen:
+            seen.add(v["key"])
+            out.append(v)
+    out += [v for v in viol if all(v is not w for w in out)]
+    return {"evaluations": ev, "violations": out[:8],
+            "summary": "real SRF (three generators, anisotropic/rotated models): permutation, split, history, storage name, structured vs expanded grid, "
+                       "seed object identity with nugget noise; consecutive calls of ONE object at equal-shaped position sets differing by relative "
+                       "shifts 1e-12…1e-2 at magnitudes 1e-3…1e7 (unstructured / structured / mesh-type switches) vs a fresh object, the stored "
+                       "positions and a direct generator evaluation; nugget-noise histories (calls, then an in-place change of nothing / var / nugget / "
+                       "anis / angles / len_scale / a change and its restoration / the same seed value again) vs a fresh object with the noise "
+                       "stream replayed"}
+
+
+def expand(pos, mesh, dim):
+    if mesh == "unstructured":
+        return np.asarray(pos, dtype=np.double).reshape(dim, -1)
+    return np.array(np.meshgrid(*pos, indexing="ij")).reshape(dim, -1)
+
+
+def search_pos_history(gs, rng, N, viol):
+    """The value at a location is a pure function of that location: a history of calls on ONE object at position sets of equal shape,
+    located anywhere between 1e-3 and 1e7 and differing by relative shifts 1e-12 … 1e-2 — each output must be bit-identical to a fresh
+    object that only ever saw those positions, the stored `pos` must be the given positions, and the output must be the generator
+    evaluated directly at the isometrized given positions."""
+    ev = 0
+    for t in range(N):
+        gen = GENS[t % 3]
+        dim = int(rng.randint(2, 4)) if gen == "IncomprRandMeth" else int(rng.randint(1, 4))
+        seed = int(rng.choice([3, 10**9 + 7, 77]))
+        mag = 10.0 ** rng.uniform(-3, 7)
+        L = mag * 10.0 ** rng.uniform(-5.5, 0)
+        kw = {}
+        if dim > 1 and gen != "IncomprRandMeth" and rng.rand() < 0.4:
+            kw = dict(anis=[float(a) for a in rng.choice([0.5, 2.0], size=dim - 1)],
+                      angles=[float(a) for a in rng.uniform(-1, 1, size=dim * (dim - 1) // 2)])
+        cls = gs.Gaussian if rng.rand() < 0.5 else gs.Exponential
+        model = cls(dim=dim, var=1.5, len_scale=L, **kw)
+
+        def mk():
+            if gen == "RandMeth":
+                return gs.SRF(model, seed=seed, mode_no=32)
+            if gen == "IncomprRandMeth":
+                return gs.SRF(model, generator="IncomprRandMeth", seed=seed, mode_no=32, mean_velocity=0.5)
+            return gs.SRF(model, generator="Fourier", seed=seed, mode_no=[8] * dim, period=[8.0 * L] * dim)
+        n = int(rng.randint(2, 8))
+        centre = mag * rng.uniform(0.3, 1.0, size=dim) * rng.choice([-1.0, 1.0], size=dim)
+        spread = min(mag, L * 10.0 ** rng.uniform(0, 2))
+        pu = centre[:, None] + rng.uniform(0, spread, size=(dim, n))
+        ks = [n] if (dim == 1 and rng.rand() < 0.5) else [int(rng.randint(2, 4)) for _ in range(dim)]
+        ax = tuple(np.sort(centre[d] + rng.uniform(0, spread, size=ks[d])) for d in range(dim))
+        calls = []
+        for _ in range(int(rng.randint(2, 6))):
+            mesh = "structured" if rng.rand() < 0.4 else "unstructured"
+            rel = 0.0 if rng.rand() < 0.15 else 10.0 ** rng.uniform(-12, -2)
+            shift = rel * mag * rng.choice([-1.0, 1.0], size=dim) * (rng.rand(dim) < 0.7)
+            if rel and not shift.any():
+                shift[int(rng.randint(0, dim))] = rel * mag
+            if mesh == "unstructured":
+                pos = pu + shift[:, None]
+            elif dim == 1 and ks == [n] and rng.rand() < 0.5:
+                pos = (np.sort(pu[0]) + shift[0],)          # the unstructured values on the other mesh type
+            else:
+                pos = tuple(a + shift[d] for d, a in enumerate(ax))
+            calls.append((mesh, pos, rel))
+        srf = mk()
+        for ci, (mesh, pos, rel) in enumerate(calls):
+            ev += 1
+            out = np.array(srf(pos, mesh_type=mesh), copy=True)
+            ref = mk()(pos, mesh_type=mesh)
+            desc = dict(gen=gen, dim=dim, seed=seed, model=repr(model), call=ci, magnitude=mag, rel_shift=rel,
+                        history=[dict(mesh_type=m, pos=np.asarray(expand(p, m, dim)).tolist(), rel_shift=r) for m, p, r in calls[:ci + 1]])
+            if not (np.all(np.isfinite(ref)) and np.all(np.isfinite(out))):
+                continue
+            if not (out.shape == ref.shape and np.array_equal(out, ref)):
+                viol.append({"key": f"locality:pos-history:{gen}",
+                             "what": "value at a location depends on the positions requested by earlier calls on the same object "
+                                     f"(call {ci} at positions shifted by {rel:.1e} x magnitude {mag:.1e} differs from a fresh object at exactly these "
+                                     f"positions by {float(np.max(np.abs(out - ref))) if out.shape == ref.shape else 'shape'})", "case": desc})
+            want = pos_arrays(dict(mesh=mesh, pos=pos), dim)
+            got = srf.pos
+            ok = srf.mesh_type == mesh and (np.array_equal(np.asarray(got), want) if mesh == "unstructured" else
+                                            (len(got) == len(want) and all(np.array_equal(np.asarray(a), b) for a, b in zip(got, want))))
+            if not ok:
+                viol.append({"key": f"locality:stored-pos:{gen}", "what": "the stored `pos` / mesh type after a call are not the given ones", "case": desc})
+            direct = np.reshape(srf.generator(model.isometrize(expand(pos, mesh, dim)), add_nugget=False), out.shape)
+            if not np.array_equal(out, direct):
+                viol.append({"key": f"locality:generator-direct:{gen}",
+                             "what": "field-level output differs from the generator evaluated directly at the isometrized given positions", "case": desc})
+    return ev
+
+
+CHANGES = ["none", "same-seed", "var", "nugget", "nugget-off-on", "anis", "angles", "len_scale", "var-and-back", "var-call-back"]
+
+
+def search_noise_history(gs, rng, N, viol):
+    """Equal histories give equal nugget noise, and after an in-place change the result is that of a freshly constructed generator:
+    k calls with noise, one kind of in-place change (or none), one more call; reference = NEW model object with the final parameter
+    values, NEW SRF with the same seed, on which the calls since the last visible change are replayed."""
+    ev = 0
+    for t in range(N):
+        gen = GENS[t % 3]
+        dim = int(rng.randint(2, 4)) if gen == "IncomprRandMeth" else int(rng.randint(1, 4))
+        seed = int(rng.choice([3, 10**9 + 7, 77]))
+        par = dict(var=1.5, len_scale=2.0, nugget=float(rng.choice([0.4, 0.05, 1.5])))
+        if dim > 1:
+            par.update(anis=[float(a) for a in rng.choice([0.5, 2.0], size=dim - 1)],
+                       angles=[float(a) for a in rng.uniform(-1, 1, size=dim * (dim - 1) // 2)])
+        cls = gs.Gaussian if rng.rand() < 0.5 else gs.Exponential
+        change = CHANGES[int(rng.randint(0, len(CHANGES)))]
+        if change in ("anis", "angles") and dim == 1:
+            change = "var"
+        mk = lambda q: make_gen_srf(gs, gen, cls(dim=dim, **q), seed, dim)
+        shapes = [int(rng.randint(1, 7)) for _ in range(int(rng.randint(1, 4)))]
+        pts = [rng.uniform(0, 10, size=(dim, m)) for m in shapes]
+        last = rng.uniform(0, 10, size=(dim, int(rng.randint(2, 7))))
+        srf = mk(par)
+        for q in pts:
+            srf(q)
+        new, burn, kw = dict(par), list(pts), {}
+        if change == "same-seed":
+            kw = dict(seed=int(str(seed)))
+        elif change == "nugget-off-on":
+            srf.model.nugget = 0.0
+            srf(pts[0])                                   # the generator sees a nugget-free model: restart, no noise drawn
+            srf.model.nugget = par["nugget"]
+            burn = []
+        elif change == "var-and-back":
+            srf.model.var = 3.0
+            srf.model.var = par["var"]                    # nothing generated in between: the generator never saw a change
+        elif change == "var-call-back":
+            srf.model.var = 3.0
+            srf(pts[0])
+            srf.model.var = par["var"]
+            burn = []
+        elif change != "none":
+            new[change] = {"var": 2.5, "nugget": par["nugget"] * 1.75, "len_scale": 3.0,
+                           "anis": [a * 1.6 for a in par.get("anis", [])], "angles": [a + 0.4 for a in par.get("angles", [])]}[change]
+            setattr(srf.model, change, new[change])
+            burn = []
+        out = np.array(srf(last, **kw), copy=True)
+        ref_srf = mk(new)
+        for q in burn:
+            ref_srf(q)
+        ref = ref_srf(last)
+        ev += 1
+        if not (np.all(np.isfinite(out)) and np.array_equal(out, ref)):
+            viol.append({"key": f"noise-history:{gen}:{change}",
+                         "what": f"after {len(pts)} noise-drawing call(s) and the in-place change '{change}' the field (nugget noise included) differs from "
+                                 f"a freshly constructed generator with the same seed and settings on which {len(burn)} call(s) are replayed "
+                                 f"(max abs diff {float(np.max(np.abs(out - ref))):.3e})",
+                         "case": dict(gen=gen, dim=dim, seed=seed, model=cls.__name__, params=par, change=change, new_params=new,
+                                      calls=[q.tolist() for q in pts], last=last.tolist())})
+    return ev
 
 
 def make_gen_srf(gs, gen, model, seed, dim):
